@@ -64,7 +64,7 @@ def run(ctx):
         elif name in ("follow_links", "follow_root_links"):
             seen.add(name)
             o = prim.origin_of_operand(pf, t.args[1])
-            fc = follow_cmp(o)
+            fc = follow_cmp(prim.resolve_promoted(pf, o))
             if name == "follow_links":
                 ok = fc is not None and ((fc[0], fc[1]) == ("eq", "Always"))
                 orc = "config.follow == Follow::Always"
@@ -428,7 +428,7 @@ def _sim_w3(f, depth0, follow_ne_never):
         if c.endswith("WalkEntry::new"):
             return "explicit_entry"
         if t.j.get("callee_name") in ("ne", "eq") and FOLLOW in (t.j.get("callee_inst") or ""):
-            o = prim.origin_of_operand(f, t.args[1]).strip()
+            o = prim.resolve_promoted(f, prim.origin_of_operand(f, t.args[1])).strip()
             v = str(o.a).split("::")[-1] if o.k == "agg" else "?"
             return "follow_%s_%s" % (t.j["callee_name"], v)
         return None
